@@ -300,8 +300,15 @@ fn run<F: MathFunction + RenderHints>(case: &Case, cx: &mut Cx) -> CheckResult {
                         "pixel ({i},{j}) is a Fill in pixel-perfect mode"
                     );
                     if is_in != (v < 0.0) {
-                        if v.is_nan() && flat.nan_from_inf(&vals) && cx.known("F11-fill-over-nan-from-infinity") {
-                            continue;
+                        if v.is_nan() && flat.nan_from_inf(&vals) {
+                            if cx.known("F11-fill-over-nan-from-infinity") {
+                                continue;
+                            }
+                            fail!(
+                                "F11-fill-over-nan-from-infinity",
+                                "pixel ({i},{j}) filled as {} but the value at its sample position is a NaN born from an infinite operand, which the interval evaluator does not see",
+                                if is_in { "inside" } else { "outside" }
+                            );
                         }
                         fail!(
                             "fill-wrong",
@@ -324,8 +331,15 @@ fn run<F: MathFunction + RenderHints>(case: &Case, cx: &mut Cx) -> CheckResult {
                         cx.ev.count("pixels_skipped_tainted");
                         continue;
                     }
-                    if v.is_nan() && flat.nan_from_inf(&vals) && cx.known("F11-fill-over-nan-from-infinity") {
-                        continue;
+                    if v.is_nan() && flat.nan_from_inf(&vals) {
+                        if cx.known("F11-fill-over-nan-from-infinity") {
+                            continue;
+                        }
+                        fail!(
+                            "F11-fill-over-nan-from-infinity",
+                            "pixel ({i},{j}) carries {} but the value at its sample position is a NaN born from an infinite operand: the tile's interval evaluation decided a choice without seeing it",
+                            fl_to_string(pv)
+                        );
                     }
                     fail!(
                         "pixel-value-wrong",
